@@ -34,6 +34,14 @@ class Run:
     def __init__(self, sysm):
         self.sys = sysm
         self.m = sysm.machine
+        self.sw_event = None
+        for st in (0, 1):
+            self.m.switch_controller.add_switch_handler("s2", self._switch_cb, state=st)
+
+    def _switch_cb(self, **kwargs):
+        if self.sw_event is not None:
+            ev, self.sw_event = self.sw_event, None
+            self._post("post", ev, (), False)
 
     def execute(self, prog):
         handlers, pre, roots, context = prog
@@ -58,6 +66,7 @@ class Run:
         for op, hid in pre:
             self._regop(op, hid)
         self.trace.append(("start",))
+        self.m.delay.clear()
         getattr(self, "_ctx_" + context)(roots)
         self.sys.loop.run_to_rest(5.0)
         return self.trace, self.posts
@@ -117,6 +126,19 @@ class Run:
                         if depth < MAX_DEPTH and self.ndisp < MAX_DISPATCH:
                             kind = "post" if op in ("post", "post_cb") else op
                             self._post(kind, arg, (), op == "post_cb")
+                    elif op == "run_now":
+                        # a pending delay whose callback posts `arg` is run from inside this handler
+                        if depth < MAX_DEPTH and self.ndisp < MAX_DISPATCH:
+                            name = "c01_rn"
+                            self.m.delay.add(ms=1000, callback=lambda _e=arg, **kw: self._post("post", _e, (), False),
+                                             name=name)
+                            self.m.delay.run_now(name)
+                    elif op == "sw":
+                        # a switch change reported from inside this handler; its (untimed) switch handler posts `arg`
+                        if depth < MAX_DEPTH and self.ndisp < MAX_DISPATCH:
+                            self.sw_event = arg
+                            sw = self.m.switches["s2"]
+                            self.m.switch_controller.process_switch_obj(sw, 0 if sw.state else 1, True)
                     elif op in ("add", "rm_key", "rm_method"):
                         self._regop(op, arg)
                     elif op == "ret_false":
@@ -420,7 +442,7 @@ def reachable(handlers, roots):
         for ev, _p, _k, _c, body, _r in handlers:
             if ev in evs:
                 for op, arg in body:
-                    if op in ("post", "post_cb", "bool", "relay") and arg not in evs:
+                    if op in ("post", "post_cb", "bool", "relay", "run_now", "sw") and arg not in evs:
                         evs.add(arg)
                         changed = True
     return evs
@@ -522,6 +544,7 @@ def programs(tier):
         yield from family_kinds(2)
         yield from with_contexts(family_forest(2, ("post", "post_cb"), 1),
                                  ("loop", "delay", "switch", "callback"))
+        yield from family_forest(3, ("post", "run_now", "sw"), 1)
     else:
         yield from family_forest(4, ("post", "post_cb"), 1)
         yield from family_forest(3, ("post", "post_cb"), 2, total_actions=4)
@@ -531,6 +554,7 @@ def programs(tier):
         yield from family_kinds(3)
         yield from with_contexts(family_forest(3, ("post", "post_cb"), 1),
                                  ("loop", "delay", "switch", "callback"))
+        yield from family_forest(3, ("post", "run_now", "sw"), 2, total_actions=4)
 
 
 # ------------------------------------------------------------------------------------------------
